@@ -2294,8 +2294,27 @@ fn parse_json_seq(s: &str) -> Vec<OwnedValue> {
         }
 
         // Try to parse as JSON, silently ignore failures
-        if validate::validate(segment.as_bytes()).is_ok() {
+        let verdict = validate::validate(segment.as_bytes());
+        if verdict.is_ok() {
             values.push(crate::output::json_bytes_to_owned_value(segment.as_bytes()));
+        } else if matches!(
+            verdict,
+            Err(ValidationError {
+                kind: validate::ValidationErrorKind::NestingTooDeep { .. },
+                ..
+            })
+        ) {
+            // The validator stopped at its own recursion guard (128 levels), which
+            // is lower than this CLI's nesting limit (`MAX_NESTING_DEPTH`, 256):
+            // "too deep to validate" is not "malformed", and RFC 7464's
+            // skip-the-record rule is only for records that fail to parse.
+            // Accept the record on the same structural scan the plain
+            // (non `--seq`) input path uses, as long as it is exactly one value.
+            let bytes = segment.as_bytes();
+            if matches!(find_json_values(bytes).as_deref(), Ok([(0, end)]) if *end == bytes.len())
+            {
+                values.push(crate::output::json_bytes_to_owned_value(bytes));
+            }
         } else {
             let normalized = normalize_leading_zero_numbers(segment);
             if normalized != segment && validate_json_str(&normalized).is_ok() {
